@@ -5,7 +5,12 @@ package checks
 import (
 	"fmt"
 	"math/rand"
+	"strings"
+	"sync"
+	"sync/atomic"
 	"time"
+
+	"github.com/rulego/streamsql/types"
 
 	"verif/internal/core"
 	"verif/internal/eng"
@@ -152,5 +157,105 @@ func c09TTLStream(ctx *core.Ctx) {
 		}
 		ctx.Case(fmt.Sprintf("c09ttl|%d", need), true, nil)
 		ctx.Distinct(fmt.Sprintf("c09ttl-run-%d", i))
+	})
+}
+
+// c09prod: several producers, each with a key of its own, emit concurrently into an instance whose input buffer
+// is small and grows on demand (expand strategy).  The arrival order across producers is open, but the rows of
+// one key all come from one producer and arrive in that producer's order: the i-th result of a key holds exactly
+// that producer's rows (i-1)N+1..iN.  A faulty synchronous sink registered BEFORE the recording sink panics on
+// every second batch: sinks are isolated from each other, the recording sink still gets every result.
+func c09ProducersStream(ctx *core.Ctx) {
+	n := ctx.N(6, 120)
+	ctx.Cases("c09prod", n, 4, func(i int, r *rand.Rand) {
+		np := 2 + r.Intn(3)
+		nw := pick(r, []int{2, 3, 4, 7})
+		m := nw * (100 + r.Intn(500)) // at most 2400 results: the (unread) result channel holds 4096
+		c := &c09MixedCase{CaseRef: core.CaseRef{Stream: "c09prod", Index: i}, N: nw}
+		c.SQL = fmt.Sprintf("SELECT k, count(*) AS c, collect(id) AS ids, min(v) AS lo, max(v) AS hi FROM stream GROUP BY k, CountingWindow(%d)", nw)
+		attrs := map[string]string{"key_shape": "one_text_column", "ncols": "1", "producers": fmt.Sprint(np), "strategy": "expand"}
+		viol := func(kind, detail string) {
+			ctx.Violate(core.Violation{Kind: kind, Attrs: attrs, Detail: detail + fmt.Sprintf("\n  sql: %s\n  %d producers x %d rows, input buffer 8 slots growing on demand", c.SQL, np, m), Case: c})
+		}
+		exp := types.ExpansionConfig{GrowthFactor: 1.05, MinIncrement: 8, TriggerThreshold: 0.9, ExpansionTimeout: 5 * time.Second}
+		s, err := eng.New(c.SQL, eng.Opts{Strategy: "expand", DataChan: 8, MaxBuffer: 1 << 20, Expansion: &exp})
+		if err != nil {
+			viol("counting.execute_error", err.Error())
+			return
+		}
+		faulty := i%2 == 1
+		var calls int64
+		if faulty {
+			s.AddSyncSink(func(batch []map[string]any) {
+				if atomic.AddInt64(&calls, 1)%2 == 0 {
+					panic("c09prod: faulty sink")
+				}
+			})
+		}
+		rec := eng.Attach(s)
+		defer s.Stop()
+		var wg sync.WaitGroup
+		for p := 0; p < np; p++ {
+			wg.Add(1)
+			go func(p int) {
+				defer wg.Done()
+				for j := 1; j <= m; j++ {
+					rec.Emit(Row{"id": p*10000000 + j, "k": plainKeys[p], "v": j})
+				}
+			}(p)
+		}
+		wg.Wait()
+		want := np * (m / nw)
+		quiet := rec.Quiesce(4, 100*time.Millisecond, 30*time.Second)
+		if rec.NDeliveries() < want && quiet {
+			quiet = rec.Quiesce(3, 250*time.Millisecond, 30*time.Second) // a missing result is only declared after a longer silence
+		}
+		st := s.GetStats()
+		// a producer that meets the full buffer while another producer's expansion is under way has its row
+		// dropped and counted: with declared input drops the exact blocks are unknown, but order and the
+		// amount reported are not
+		lost := int(st["input_dropped_count"])
+		if st["output_dropped_count"] != 0 || st["droppedCount"] != 0 || !quiet {
+			ctx.Inconclusive(fmt.Sprintf("c09prod: overload or not quiescent (quiet=%v, %d of %d deliveries, stats %v)", quiet, rec.NDeliveries(), want, s.GetStats()))
+			return
+		}
+		next := map[string]int{}
+		lastID := map[string]int{}
+		for _, d := range rec.Deliveries() {
+			for _, out := range d.Rows {
+				k, _ := out["k"].(string)
+				ids, _ := idList(out["ids"])
+				p := strings.Index("abcdef", k)
+				if p < 0 || len(ids) != nw {
+					viol("counting.wrong_rows", fmt.Sprintf("delivery %d: key %q with %d rows (N=%d): %s", d.Index, k, len(ids), nw, core.J(out)))
+					return
+				}
+				for x, id := range ids {
+					if w := p*10000000 + next[k] + x + 1; lost == 0 && id != w {
+						viol("counting.wrong_rows", fmt.Sprintf("result %d of key %q must hold that producer's rows %d..%d in their order, got ids %v (delivery %d)", next[k]/nw+1, k, next[k]+1, next[k]+nw, ids, d.Index))
+						return
+					}
+					if id <= lastID[k] || id/10000000 != p {
+						viol("counting.wrong_rows", fmt.Sprintf("key %q: its producer emitted ids in increasing order, but row %d is reported after row %d (result ids %v, delivery %d)", k, id, lastID[k], ids, d.Index))
+						return
+					}
+					lastID[k] = id
+				}
+				next[k] += nw
+			}
+		}
+		for p := 0; p < np; p++ {
+			if got := next[plainKeys[p]]; got > m || got < m-lost-(nw-1) {
+				why := ""
+				if faulty {
+					why = fmt.Sprintf(" (a synchronous sink registered before the recording one panicked on every second of its %d calls)", atomic.LoadInt64(&calls))
+				}
+				viol("counting.result_missing", fmt.Sprintf("key %q: %d of %d rows were reported to the recording sink (input_dropped_count=%d)%s", plainKeys[p], got, m, lost, why))
+				return
+			}
+		}
+		ctx.Count("producers.results_checked", int64(rec.NDeliveries()))
+		ctx.Count("producers.rows_dropped_declared", int64(lost))
+		ctx.Case(fmt.Sprintf("c09prod|%d|%d|%d|%v", np, nw, m, faulty), true, nil)
 	})
 }
